@@ -17,7 +17,7 @@ for pid in allids:
         evidence_file="evidence/%s.json" % pid,
         replay_cmd_template="./check replay {path} --id %s" % pid,
         engine=", ".join(sorted(set(j["kind"] for j in sp["jobs"]))),
-        level_claimed=dict(category=sp["level"], text=sp.get("level_text", sp["rule"]), design_ref=sp.get("design_ref", "DESIGN.md section 3, " + pid)),
+        level_claimed=dict(category=sp["level"], text=sp.get("level_text", ("Fault enumeration" if sp["level"] == "fault_enumeration" else "Exploration") + " by " + sp["technique"] + ". Assurance: every generated / enumerated case is executed against the real code built from /repo's working tree and judged by an explicit oracle; a pass means no violation among the cases counted in the evidence file - strong evidence for a property quantified over histories/inputs/faults, never a proof of absence (enumerated sub-spaces are complete only inside their stated bound). What is generated and what counts as non-trivial: " + sp["rule"]), design_ref=sp.get("design_ref", "DESIGN.md section 3, " + pid)),
         level_note=sp.get("level_note", "Trusted base: the harness's reference model and decoder (harness/), clang 14 sanitizer runtimes, rapidcheck/libFuzzer. Assumes: " + "; ".join(sp.get("assumptions", [])) + ". Generated-input search never establishes absence; bounded-exhaustive parts are complete only inside their stated bound."),
         technique=sp["technique"]))
 na = [dict(property_id=p, reason=specs.NOT_APPLICABLE.get(p, "check not built yet in this revision of /verif (planned in DESIGN.md section 3)")) for p in allids if p not in specs.PROPS]
